@@ -59,6 +59,17 @@ def run(env, tier, seed, broken=None):
         '%s pick(a, pick, b) { %s pick; }\n%s pick(1, "two", 3);\n%s sel(sel) { %s sel + 1; }\n%s sel(41);\n' % (FUN, RETURN, PRINT, FUN, RETURN, PRINT),
         '%s acc(n) { %s tot = 0; %s add(k) { tot = tot + k; %s tot; } %s (n > 0) { %s add(n) + acc(n - 1); } %s add(0); }\n%s acc(4);\n%s acc(2);\n' % (FUN, VAR, FUN, RETURN, IF, RETURN, RETURN, PRINT, PRINT),
     ]
+    # recursion re-entered through a later argument of the same call site, run twice (each activation owns its
+    # argument list); tail calls to oneself with a wrong number of arguments (arity is checked on every call)
+    extra += [
+        '%s add(a, b) { %s a + b; }\n%s sum(n) { %s (n <= 0) { %s 0; } %s add(n, sum(n - 1)); }\n%s sum(4);\n%s sum(4);\n%s sum(6);\n' % (FUN, RETURN, FUN, IF, RETURN, RETURN, PRINT, PRINT, PRINT),
+        '%s ack(m, n) { %s (m == 0) { %s n + 1; } %s (n == 0) { %s ack(m - 1, 1); } %s ack(m - 1, ack(m, n - 1)); }\n%s ack(2, 3);\n%s ack(2, 3);\n%s ack(1, 2);\n' % (FUN, IF, RETURN, IF, RETURN, RETURN, PRINT, PRINT, PRINT),
+        '%s tri(a, b, c) { %s (a <= 0) { %s [a, b, c]; } %s tri(a - 1, tri(a - 1, b, c)[1] + 1, c + a); }\n%s tri(3, 0, 0);\n%s tri(3, 0, 0);\n' % (FUN, IF, RETURN, RETURN, PRINT, PRINT),
+        '%s cnt(n, acc) { %s (n == 0) { %s acc; } %s cnt(n - 1, acc + n); }\n%s cnt(10, 0);\n%s bad(n, acc) { %s (n == 0) { %s acc; } %s bad(n - 1, acc + n, 99); }\n%s bad(0, 5);\n%s bad(2, 0);\n%s "unreached";\n' % (FUN, IF, RETURN, RETURN, PRINT, FUN, IF, RETURN, RETURN, PRINT, PRINT, PRINT),
+        '%s few(n, acc) { %s (n == 0) { %s acc; } %s few(n - 1); }\n%s few(0, 1);\n%s few(3, 1);\n%s "unreached";\n' % (FUN, IF, RETURN, RETURN, PRINT, PRINT, PRINT),
+        '%s lp(n) { %s (n > 0) { %s (n == 2) { %s lp(n - 1, 0); } n = n - 1; } %s "done"; }\n%s lp(1);\n%s lp(3);\n' % (FUN, WHILE, IF, RETURN, RETURN, PRINT, PRINT),
+        '%s twice(f, x) { %s f(f(x)); }\n%s inc(x) { %s x + 1; }\n%s twice(inc, 1);\n%s twice(inc, twice(inc, 5));\n%s twice(inc, twice(inc, 5));\n' % (FUN, RETURN, FUN, RETURN, PRINT, PRINT, PRINT),
+    ]
     for e in extra:
         cases.append({'id': 'e%d' % n, 'src': e}); n += 1
     for i in range(1000 if tier == 'quick' else 30000):
